@@ -1598,7 +1598,8 @@ def tagToXML(tag: str | bytes) -> str:
         return "OS_2"
     elif tag == "GlyphOrder":
         return tag
-    if re.match("[A-Za-z_][A-Za-z_0-9]* *$", tag):
+    if tag != "OS_2" and re.match("[A-Za-z_][A-Za-z_0-9]* *$", tag):
+        # ("OS_2" is taken: it is how "OS/2" is written)
         return tag.strip()
     else:
         # Escape all four characters (trailing spaces included) so that the
